@@ -57,6 +57,17 @@ class Fx:
             if L.loop_add_packet(self.loop, pk) != CIF_OK:
                 raise HarnessError('fixture')
             L.packet_free(pk)
+        # a loop of the other block: the one an enclosing iterator walks in the "@in-iterator" operations
+        self.loop2 = L.create_loop(self.b2, 'itcat', ['_i1', '_i2'])[1]
+        for r in range(3):
+            pk = L.packet_create(['_i1', '_i2'])[1]
+            for name in ('_i1', '_i2'):
+                v = L.make_value(('char', 'it%d%s' % (r, name), True))
+                L.packet_set(pk, name, v)
+                L.value_free(v)
+            if L.loop_add_packet(self.loop2, pk) != CIF_OK:
+                raise HarnessError('fixture')
+            L.packet_free(pk)
         # caller-owned objects
         self.v_char = L.make_value(('char', 'standalone', True))
         self.v_numb = L.make_value(('numb', '12.50(12)', False))
@@ -71,12 +82,12 @@ class Fx:
             L.value_free(v)
         self.extra = []      # (kind, handle) created by ops' preparation, released at teardown
 
-    def snapshot(self):
+    def snapshot(self, with_cif=True):
         L = self.L
         vals = tuple(L.read_value(v) for v in (self.v_char, self.v_numb, self.v_numtext, self.v_list, self.v_table, self.v_unk))
         rc, names = L.packet_names(self.pk)
         pk = tuple((n, L.read_value(L.packet_get(self.pk, n)[1])) for n in sorted(names)) if rc == CIF_OK else ('packet_names', rc)
-        return (D.dump(L, self.cif), vals, pk)
+        return (D.dump(L, self.cif) if with_cif else None, vals, pk)
 
     def owned_valid(self, snap):
         """are the caller-owned objects of a snapshot well-formed values (whatever their content)"""
@@ -98,6 +109,7 @@ class Fx:
         for kind, h in self.extra:
             {'value': L.value_free, 'packet': L.packet_free, 'container': L.container_free, 'loop': L.loop_free, 'ustr': L.vp_free}[kind](h)
         L.loop_free(self.loop)
+        L.loop_free(self.loop2)
         L.container_free(self.f1)
         L.container_free(self.b1)
         L.container_free(self.b2)
@@ -666,6 +678,62 @@ def _write_op(name, version):
 _write_op('cif_write:cif2', 2)
 
 
+# ---- the same calls made while a packet iterator is open on another loop -------------------------------------------
+# The iterator owns the CIF's transaction; a call made meanwhile works in a nested one.  Whatever happens to the call,
+# the iterator's transaction, its position and the update already made through it belong to the caller.
+
+NESTED = '@in-iterator'
+NESTABLE = ['cif_create_block', 'cif_get_block', 'cif_container_create_frame', 'cif_container_get_frame',
+            'cif_container_get_category_loop', 'cif_container_get_item_loop', 'cif_container_get_value:table',
+            'cif_container_get_value:list', 'cif_get_all_blocks', 'cif_container_get_all_frames',
+            'cif_container_get_all_loops', 'cif_loop_get_names', 'cif_container_prune', 'cif_container_set_value:new',
+            'cif_container_set_value:replace', 'cif_container_set_value:in-loop', 'cif_container_remove_item:scalar',
+            'cif_container_remove_item:loop', 'cif_loop_set_category', 'cif_loop_add_item', 'cif_loop_add_packet',
+            'cif_container_create_loop:3', 'cif_container_destroy:frame', 'cif_loop_destroy', 'cif_loop_get_category',
+            'cif_container_get_code', 'cif_container_assert_block']
+
+
+def _nest(name, inner, retry):
+    @op(name + NESTED, retry)
+    def _(L, fx):
+        g = inner(L, fx)
+        target = next(g)
+        rc, it = L.loop_get_packets(fx.loop2)
+        if rc != CIF_OK:
+            raise HarnessError('cannot open the enclosing iterator: %d' % rc)
+        rc, pkt = L.it_next(it, 'new')
+        if rc != CIF_OK:
+            raise HarnessError('next -> %d' % rc)
+        v = L.make_value(('char', 'changed through the enclosing iterator', True))
+        L.packet_set(pkt, '_i2', v)
+        L.value_free(v)
+        rc = L.it_update(it, pkt)
+        L.packet_free(pkt)
+        if rc != CIF_OK:
+            raise HarnessError('update -> %d' % rc)
+        rc = yield target
+        tx = L.in_transaction(fx.cif)
+        rc_next, pkt = L.it_next(it, 'new')
+        second = None
+        if rc_next == CIF_OK:
+            second = L.read_value(L.packet_get(pkt, '_i1')[1])
+            L.packet_free(pkt)
+        rc_close = L.it_close(it)
+        try:
+            g.send(rc)
+            raise HarnessError('inner op generator yielded twice')
+        except StopIteration as e:
+            out = e.value
+        return (out, ('enclosing iterator', tx, rc_next, second, rc_close))
+
+
+for _name, _fn, _retry in list(OPS):
+    if _name in NESTABLE:
+        _nest(_name, _fn, _retry)
+_missing = set(NESTABLE) - set(n for n, _, _ in OPS)
+assert not _missing, _missing
+
+
 # ---- runner ------------------------------------------------------------------------------------------------------
 
 class Scenario:
@@ -731,12 +799,16 @@ def run_op(ctx, case_index, name, opfn, retryable, layer):
     quick = ctx.tier == 'quick'
     info = dict(op=name, layer=layer)
     iterator_op = name.startswith('cif_pktitr_')
+    nested = name.endswith(NESTED)
     n, rc_n, out_n, S_n, S_0 = twin(L, opfn, layer)
     _, _, out_skip, S_skip, _ = twin(L, opfn, layer, skip=True)
     if not (ctx.resume and ctx.resume.get('index') == case_index):
         ctx.count('ops')
         ctx.count('allocation_sites_reached:%s' % layer, n)
     ctx.add('ops_run', name)
+    if nested and rc_n != CIF_OK:
+        ctx.count('nested_operations_refused_inside_an_iterator')     # nothing to fault: the call is not available there
+        return
     if rc_n not in (CIF_OK,):
         ctx.inconclusive('%s: the unfaulted call returns %r' % (name, rc_n))
         return
@@ -765,7 +837,11 @@ def run_op(ctx, case_index, name, opfn, retryable, layer):
             ctx.add('results_under_fault', '%s' % (rc_f,))
             failed = rc_f in FAILS or rc_f == NULLPTR
             # iterator steps run inside the iterator's transaction; close and abort end it
-            tx_expected = iterator_op and name not in ('cif_pktitr_close', 'cif_pktitr_abort')
+            tx_expected = nested or (iterator_op and name not in ('cif_pktitr_close', 'cif_pktitr_abort'))
+            if nested and not L.in_transaction(sc.fx.cif):
+                ctx.violation('fault:%s:%s:enclosing-transaction-lost' % (layer, name), '%s with allocation %d of %d (%s layer) failing returned %s and ended the transaction of the packet iterator that was open on another loop' % (name, k, n, layer, rc_f), kinfo)
+                sc.finish(rc_f)
+                continue
             if not tx_expected and L.in_transaction(sc.fx.cif):
                 ctx.violation('fault:%s:%s:transaction-left-open' % (layer, name), '%s with allocation %d of %d (%s layer) failing returned %s and left a transaction open: every later call that starts one fails' % (name, k, n, layer, rc_f), kinfo)
                 sc.finish(rc_f)
@@ -776,8 +852,8 @@ def run_op(ctx, case_index, name, opfn, retryable, layer):
                 continue
             owned_changed = False
             if failed and not iterator_op and name not in ('cif_parse:existing',):
-                mid = sc.fx.snapshot()
-                if mid[0] != S_0[0]:
+                mid = sc.fx.snapshot(with_cif=not nested)      # (no second iterator, hence no dump, inside an iterator)
+                if not nested and mid[0] != S_0[0]:
                     ctx.violation('fault:%s:%s:cif-changed' % (layer, name), '%s failed with %s (allocation %d of %d) but changed the managed CIF: %s' % (name, rc_f, k, n, D.first_difference(mid[0], S_0[0])), kinfo)
                     sc.finish(rc_f)
                     continue
@@ -810,6 +886,9 @@ def run_op(ctx, case_index, name, opfn, retryable, layer):
                 want_S, want_out, what = S_n, out_n, 'the normal'
             else:
                 want_S, want_out, what = S_skip, out_skip, 'the call-skipped'
+            if nested and out[1] != want_out[1]:
+                ctx.violation('fault:%s:%s:enclosing-iterator-broken' % (layer, name), '%s (allocation %d of %d failing, result %s): the packet iterator open on another loop then answered (transaction open, next, next packet, close) = %r; unfaulted %r' % (name, k, n, rc_f, out[1][1:], want_out[1][1:]), kinfo)
+                continue
             if name == 'cif_parse:existing' and rc_final != rc_n:
                 pass        # the documentation allows partial content; consistency was checked by the dump
             elif owned_changed or iterator_op:
@@ -840,8 +919,15 @@ def run_op(ctx, case_index, name, opfn, retryable, layer):
         ctx.drain_events(kinfo, prefix='fault:%s:%s:' % (layer, name))
 
 
+def all_cases():
+    # inside an open iterator only the library's own allocations are faulted: an allocation failure inside the storage
+    # engine ends the enclosing transaction whatever the library does (recorded finding, DESIGN 7.2), for every call alike
+    return [(name, fn, retry, layer) for (name, fn, retry) in OPS for layer in ('lib', 'sqlite')
+            if not (name.endswith(NESTED) and layer == 'sqlite')]
+
+
 def worker(ctx):
-    cases = [(name, fn, retry, layer) for (name, fn, retry) in OPS for layer in ('lib', 'sqlite')]
+    cases = all_cases()
     if ctx.params.get('_single') is not None:
         ctx.single = ctx.params['_single']
     for i in ctx.cases(len(cases)):
@@ -853,7 +939,7 @@ def worker(ctx):
 def run(env):
     res = env.run_pool(MODULE, dict(), nshards=16, case_timeout=300, total_timeout=3000 if env.quick else 40000, resume_in_case=True, max_restarts=3000)
     inconclusive = list(res.inconclusive)
-    nops = len(OPS) * 2
+    nops = len(all_cases())
     if res.count('ops') < nops and not res.violations:
         inconclusive.append('only %d of %d (operation, layer) pairs ran' % (res.count('ops'), nops))
     return dict(
@@ -872,7 +958,9 @@ def run(env):
             allocations_reached_sqlite=res.count('allocation_sites_reached:sqlite'),
             results_under_fault=sorted(res.sets.get('results_under_fault', ())), crashes=res.crashes),
         violations=res.violations, inconclusive=inconclusive,
-        assumptions=['ICU allocations are not faulted (the statement names library, hash-table and storage-engine allocations)',
+        assumptions=['calls made inside an open packet iterator (the "@in-iterator" operations) are faulted in the library layer only: '
+                     'a storage-engine allocation failure there ends the enclosing transaction for every call alike (recorded finding)',
+                     'ICU allocations are not faulted (the statement names library, hash-table and storage-engine allocations)',
                      'cif_parse into an existing CIF may leave partial content (documented); only consistency is judged there',
                      'a failed cif_destroy / cif_container_destroy / cif_loop_destroy is not retried'])
 
